@@ -1681,7 +1681,7 @@ class Interp:
                 base = base.astuple()
             if isinstance(base, Ext):
                 return base.sym_getitem(self, slice(lo, hi, st))
-            if isinstance(base, (tuple, list, str)):
+            if isinstance(base, (tuple, list, str, range)):
                 return base[_idx(lo) if lo is not None else None:_idx(hi) if hi is not None else None:
                             _idx(st) if st is not None else None]
             if isinstance(base, Unknown):
@@ -1694,7 +1694,7 @@ class Interp:
             return base.sym_getitem(self, k)
         if isinstance(base, Unknown) or isinstance(k, Unknown):
             return Unknown("subscript of unknown")
-        if isinstance(base, (tuple, list, str)):
+        if isinstance(base, (tuple, list, str, range)):
             try:
                 return base[_idx(k)]
             except IndexError:
